@@ -1,4 +1,4 @@
-// vf-driver: kind=cxx extra=mpi_interp.cpp,mpi_ops_base.cpp,mpi_ops_group.cpp,mpi_ops_p2p.cpp
+// vf-driver: kind=cxx extra=mpi_interp.cpp,mpi_ops_base.cpp,mpi_ops_group.cpp,mpi_ops_p2p.cpp,mpi_ops_rma.cpp
 /* mpi2_interp: the generic MPI scenario interpreter of mpi_interp.cpp (main, engine, fork server: see notes/MPI_INFRA.md) linked
  * with the operation files needed by C28 / C34 (builder mpi2): the base and communicator operations of the finished checks,
  * unchanged, plus mpi_ops_p2p.cpp (completion calls, probe+receive) and mpi_ops_rma.cpp (one-sided operations).
